@@ -32,6 +32,7 @@ type behavior struct {
 	Child        string `json:"child"`
 	ChildSleepMS int    `json:"child_sleep_ms"`
 	ExitFirst    bool   `json:"exit_first"`
+	StderrFirst  bool   `json:"stderr_first"`
 }
 
 type hostSpec struct {
@@ -137,6 +138,9 @@ func main() {
 	stdouts = append(stdouts,
 		stdoutV{"wrong-name", false, func(string) string { return metaJSON("someone-else", "", "1.0") }, 0},
 		stdoutV{"wrong-contract", false, func(string) string { return metaJSON(name, "", "2.0") }, 0},
+		stdoutV{"wrong-contract-same-major", false, func(string) string { return metaJSON(name, "", "1.1") }, 0},
+		stdoutV{"wrong-contract-major-only", false, func(string) string { return metaJSON(name, "", "1") }, 0},
+		stdoutV{"wrong-contract-patch", false, func(string) string { return metaJSON(name, "", "1.0.1") }, 0},
 		stdoutV{"null", false, func(string) string { return "null" }, 0},
 		// a complete, well-shaped reply followed by more output is not a JSON reply
 		stdoutV{"valid-then-second-document", false, func(c string) string {
@@ -173,11 +177,12 @@ func main() {
 		{"child-holds", func(b *behavior) { b.Child, b.ChildSleepMS, b.SleepMS = "hold", 120000, 120000 }},
 		{"grandchild-holds", func(b *behavior) { b.Child, b.ChildSleepMS, b.SleepMS = "hold2", 120000, 120000 }},
 		{"child-holds-exit-first", func(b *behavior) { b.Child, b.ChildSleepMS, b.ExitFirst = "hold", 120000, true }},
+		{"reports-error-then-hangs", func(b *behavior) { b.SleepMS, b.StderrFirst, b.Exit = 120000, true, 1 }},
 	}
 
 	var cases []caseT
 	add := func(cmd string, so stdoutV, se stderrV, exit int, tm timingV, ctx string) {
-		if strings.HasPrefix(so.class, "missing:") || so.class == "wrong-name" || so.class == "wrong-contract" {
+		if strings.HasPrefix(so.class, "missing:") || so.class == "wrong-name" || strings.HasPrefix(so.class, "wrong-contract") {
 			if cmd != "get-plugin-metadata" {
 				return
 			}
@@ -209,6 +214,11 @@ func main() {
 			for _, tm := range timings[1:] {
 				for _, ctx := range []string{"deadline", "cancel"} {
 					add(cmd, stdouts[0], stderrs[0], 0, tm, ctx)
+					if tm.name == "reports-error-then-hangs" {
+						for _, se := range stderrs[3:] {
+							add(cmd, stdouts[0], se, 1, tm, ctx)
+						}
+					}
 				}
 			}
 			add(cmd, stdouts[0], stderrs[0], 0, timings[0], "deadline")
@@ -236,6 +246,9 @@ func main() {
 		}
 		for ti, tm := range timings[1:] {
 			add(commands[ti%len(commands)], stdouts[0], stderrs[0], 0, tm, []string{"cancel", "deadline"}[ti%2])
+		}
+		for ci, cmd := range commands {
+			add(cmd, stdouts[0], stderrs[3+ci%len(errCodes)], 1, timings[len(timings)-1], []string{"deadline", "cancel"}[ci%2]) // structured error printed, then the plugin hangs
 		}
 		add("get-plugin-metadata", stdouts[4], stderrs[0], 0, timings[0], "background") // 2 GiB stdout
 		add("describe-key", stdouts[0], stderrs[2], 1, timings[0], "background")        // 2 GiB stderr
@@ -339,6 +352,13 @@ func main() {
 		if !failed && !c.ValidReply && !res.OK && c.Timing == "immediate" && !c.Big && c.ReplyClass != "null" {
 			if res.ErrType != "malformed" && !(c.ReplyClass == "wrong-name" && res.ErrType == "other") {
 				r.Violation(sig("untyped-error"), fmt.Sprintf("%s: a malformed reply must yield PluginMalformedError, got %s %q", c.ID, res.ErrType, res.ErrMsg), wit)
+			}
+		}
+		if c.Timing == "reports-error-then-hangs" && c.Ctx != "background" && strings.HasPrefix(c.StderrKind, "structured:") && !res.OK {
+			r.Event("error-typing-checked")
+			code := strings.TrimPrefix(c.StderrKind, "structured:")
+			if res.ErrType != "request-error" || res.ErrCode != code {
+				r.Violation(sig("structured-error-lost"), fmt.Sprintf("%s: the plugin printed the structured error %s before it was killed by the context; the call returned %s/%s %q", c.ID, code, res.ErrType, res.ErrCode, res.ErrMsg), wit)
 			}
 		}
 		// 3. bounded buffering
